@@ -25,7 +25,8 @@ theorem stackBeq_eq : ∀ {a b : List (Nat × Nat)}, stackBeq a b = true → a =
     rw [h1, h2, stackBeq_eq h3]
 
 theorem Park.code_inj {a b : Park} (h : a.code = b.code) : a = b := by
-  cases a <;> cases b <;> (try rename_i x; cases x) <;> (try rename_i y; cases y) <;> simp_all [Park.code]
+  cases a <;> cases b <;> (try rename_i l x; cases x) <;> (try rename_i l' y; cases y) <;>
+    simp only [Park.code] at h <;> (try omega) <;> (try rfl) <;> (congr 1; omega)
 
 theorem Status.code_inj {a b : Status} (h : a.code = b.code) : a = b := by
   cases a <;> cases b <;> (try rename_i x; cases x) <;> (try rename_i y; cases y) <;> simp_all [Status.code]
@@ -51,10 +52,10 @@ theorem thsBeq_eq : ∀ {a b : List Th}, thsBeq a b = true → a = b
 
 theorem St.beq_eq {a b : St} (h : a.beq b = true) : a = b := by
   simp only [St.beq, Bool.and_eq_true, beq_iff_eq] at h
-  obtain ⟨⟨⟨⟨⟨⟨⟨h1, h2⟩, h3⟩, h4⟩, h5⟩, h6⟩, h7⟩, h8⟩ := h
+  obtain ⟨⟨⟨⟨⟨⟨⟨⟨h1, h2⟩, h3⟩, h4⟩, h5⟩, h6⟩, h7⟩, h9⟩, h8⟩ := h
   cases a; cases b
   simp only [St.mk.injEq]
-  exact ⟨boolBeq_eq h1, boolBeq_eq h2, h3, optNatBeq_eq h4, optNatBeq_eq h5, optNatBeq_eq h6, h7, thsBeq_eq h8⟩
+  exact ⟨boolBeq_eq h1, boolBeq_eq h2, h3, optNatBeq_eq h4, optNatBeq_eq h5, optNatBeq_eq h6, h7, h9, thsBeq_eq h8⟩
 
 theorem memBucket_sound {k : Nat} {s : St} : ∀ {l : List (Nat × St)}, memBucket k s l = true → s ∈ l.map (·.2)
   | [], h => by simp [memBucket] at h
